@@ -262,6 +262,10 @@ class RandomHistory(object):
         if cat == "stats":
             return {"t": "stats"}
         if cat == "noise":
+            if openids and r.random() < 0.5:
+                # an announcement that lacks parameters is not an announcement: a live client of that id is not touched by it
+                cid = r.choice(openids)
+                return {"t": "noise", "line": r.choice(["%d C 1.2.3.4", "%d C", "%d C 1.2.3.4 5 6.7.8.9", "%d C 1.2.3.4 5"]) % cid}
             return {"t": "noise", "line": r.choice(["-1 M irc.example.net 20", "-1 E NOTICE :something", "-1 ? config", "-1 M srv"])}
         if cat == "stray":
             return self.stray_ev()
